@@ -583,6 +583,10 @@ def clauseBody : Clause → String
   | .dtWrite => "decode_total: ioConn.Write panicked"
   | .badFrame => "ndjson_roundtrip: the bytes written are not one compact payload followed by a single LF"
   | .writtenDiffers => "batch_roundtrip: the message written differs from the message given"
+  | .dtNdReader .panic => "decode_total: the reader of an io connection panicked on input bytes"
+  | .dtNdReader .hang => "decode_total: the reader of an io connection did not return on input bytes"
+  | .ndNotValueByValue =>
+    "ndjson_roundtrip: the reader of an io connection does not hand on the values of a newline-delimited stream one by one as written (objects / arrays, each followed by LF or CRLF)"
   | .writePanic02 => "batch_exactly_once: ioConn.Write panicked"
   | .flushedEarly => "batch_exactly_once: batch reply flushed before the last call of the batch was answered"
   | .notOnItsOwn => "batch_exactly_once: a message outside any batch was not written on its own"
@@ -1003,6 +1007,31 @@ def stepWire (d : DState) (toks : List String) (impl : String) : DState × Verdi
       let viol := verd.selectWrite (pidOf d.pid)
       ({ d with io := io', mon := mon' }, { model := showWriteOut out, violated := viol.map (clauseText d.pid) })
     | _ => bad d
+  | "nd.split" :: r =>
+    -- `(x<value> x<separator>)*`: the bytes of a newline-delimited stream through the reader goroutine of the
+    -- real `newIOConn`; observed: `n<k> x<value>* eof|trailing|other`
+    match (match pMany (fun ts => match ts with
+        | a :: b :: r => (do let v ← pHexTok "x" a; let w ← pHexTok "x" b; some ((v, w), r))
+        | _ => none : P (Bytes × Bytes)) r with | (l, []) => some l | _ => none : Option (List (Bytes × Bytes))) with
+    | some l =>
+      let res := readStream (joinWs l)
+      let showEnd : StreamEnd → String
+        | .eof => "eof" | .trailing => "trailing" | .noValue => "other"
+      let model := " ".intercalate ([s!"n{res.1.length}"] ++ res.1.map (fun v => "x" ++ hexB v) ++ [showEnd res.2])
+      let obs : NdObs := match crashOf impl with
+        | some c => .crash c
+        | none =>
+          match itoks with
+          | hd :: rest =>
+            let vals := rest.dropLast.filterMap (pHexTok "x")
+            let fin : Option StreamEnd := match rest.getLast? with
+              | some "eof" => some .eof | some "trailing" => some .trailing | some "other" => some .noValue | _ => none
+            (match fin with
+              | some f => if hd == s!"n{vals.length}" && vals.length + 1 == rest.length then .read vals f else .garbled
+              | none => .garbled)
+          | [] => .garbled
+      out19 d model (ndSplitMonitor l obs)
+    | none => bad d
   ----------------------------------------------------------------- frames through the other readers
   | "io.rb" :: r =>
     -- readBatch on its own
